@@ -509,9 +509,16 @@ class HostConnection(object):
         log.debug("Replacing connection (%s) to %s", id(connection), self.host)
         try:
             conn = self._session.cluster.connection_factory(self.host.endpoint, on_orphaned_stream_released=self.on_orphaned_stream_released)
-            if self._keyspace:
-                conn.set_keyspace_blocking(self._keyspace)
-            self._connection = conn
+            while True:
+                keyspace = self._keyspace
+                if keyspace:
+                    conn.set_keyspace_blocking(keyspace)
+                with self._lock:
+                    # publish the connection only if the keyspace was not switched meanwhile
+                    # (see _set_keyspace_for_all_conns); otherwise select the new one first
+                    if self._keyspace == keyspace:
+                        self._connection = conn
+                        break
         except Exception:
             log.warning("Failed reconnecting %s. Retrying." % (self.host.endpoint,))
             self._session.submit(self._replace, connection)
@@ -549,7 +556,14 @@ class HostConnection(object):
                 conn.close()
 
     def _set_keyspace_for_all_conns(self, keyspace, callback):
-        if self.is_shutdown or not self._connection:
+        with self._lock:
+            # a connection being opened by _replace() is published only with this keyspace selected
+            self._keyspace = keyspace
+            connection = self._connection
+
+        if self.is_shutdown or not connection:
+            # nothing to switch at the moment, but the caller is waiting for every pool
+            callback(self, [])
             return
 
         def connection_finished_setting_keyspace(conn, error):
@@ -557,8 +571,7 @@ class HostConnection(object):
             errors = [] if not error else [error]
             callback(self, errors)
 
-        self._keyspace = keyspace
-        self._connection.set_keyspace_async(keyspace, connection_finished_setting_keyspace)
+        connection.set_keyspace_async(keyspace, connection_finished_setting_keyspace)
 
     def get_connections(self):
         c = self._connection
